@@ -575,10 +575,12 @@ func TestVerifC27(t *testing.T) {
 	scs := []c27Scenario{
 		{name: "gate/2callers-x2/maxBatch2", callers: 2, per: 2, maxBatch: 2, conns: 3, bound: b},
 		{name: "gate/1caller-x4/maxBatch2", callers: 1, per: 4, maxBatch: 2, conns: 3, bound: b},
-		{name: "gate/2callers-x3/maxBatch1-backpressure", callers: 2, per: 3, maxBatch: 1, conns: 3, bound: vsched.Pick(0, 1), submitTimeout: time.Second},
+		{name: "gate/2callers-x3/maxBatch1-backpressure", callers: 2, per: 3, maxBatch: 1, conns: 3, bound: 0, submitTimeout: time.Second},
 	}
 	if r.Thorough() {
-		scs = append(scs, c27Scenario{name: "gate/3callers-x2/maxBatch2", callers: 3, per: 2, maxBatch: 2, conns: 3, bound: 1})
+		scs = append(scs,
+			c27Scenario{name: "gate/3callers-x2/maxBatch2", callers: 3, per: 2, maxBatch: 2, conns: 3, bound: 0},
+			c27Scenario{name: "gate/1caller-x6/maxBatch1-backpressure", callers: 1, per: 6, maxBatch: 1, conns: 3, bound: 2, submitTimeout: time.Second})
 	}
 	var all []vsched.Scenario
 	for _, sc := range scs {
